@@ -12,7 +12,8 @@ CRATES=$(python3 -c "import json;print(' '.join('-p '+c for c in json.load(open(
 DEMO=$(python3 -c "import json;print(json.load(open('$OUT/meta.json'))['demo_cmd'])")
 clean; git apply $OUT/patch.diff || { echo "PATCH-DOES-NOT-APPLY"; exit 2; }
 echo "== existing tests with the change ($CRATES)"
-if [ "${SKIP_SUITE:-0}" = "1" ]; then echo "(suite skipped)"; T=0; else cargo test --offline $CRATES 2>&1 | grep -E "^test result|FAILED|^error" | sort | uniq -c | head -8; T=${PIPESTATUS[0]}; fi
+FEAT=""; case "$CRATES" in *mithril-client*) FEAT="--features fs,unstable,rustls";; esac
+if [ "${SKIP_SUITE:-0}" = "1" ]; then echo "(suite skipped)"; T=0; else cargo test --offline $CRATES $FEAT 2>&1 | grep -E "^test result|FAILED|^error" | sort | uniq -c | head -8; T=${PIPESTATUS[0]}; fi
 case "$DEMO" in *"git apply"*) SELF_APPLY=1;; *) SELF_APPLY=0;; esac   # some demo commands apply demo.diff themselves
 [ $SELF_APPLY = 1 ] || git apply $OUT/demo.diff || { echo "DEMO-DOES-NOT-APPLY"; clean; exit 2; }
 echo "== demo with the change: $DEMO"
